@@ -22,6 +22,8 @@ Struct-vs-map flags of map literals are dictated by the parameter type (`wt`);
 -/
 import Martian.Invocation
 import Proofs.Invocation
+import Martian.InvocationStr
+import Proofs.InvocationStr
 import Gen.Facts
 
 namespace Props.C16
@@ -346,5 +348,103 @@ theorem split_empty_not_printable :
 theorem split_null_not_printable :
     (buildBinding true ⟨.scalar, 0, 0⟩ (.obj (.cons splitKey (.lit .null) .nil))).map Arg.printable
       = some false := by rfl
+
+
+/-! ## the string leaf at byte level
+
+`Lit.str s` above is the decoded byte string; the theorems below are about the
+TEXT that carries it in either direction (models: Martian/InvocationStr.lean
+for `encoding/json`'s encoder/decoder and Python's `json.dumps`,
+Martian/Lexer.lean `unquoteBytes`, Martian/Format.lean `quoteString`; each is
+compared with the real function on every run). -/
+section StringLeaf
+open Martian.InvocationStr
+open Martian.Lexer (unquoteBytes)
+open Martian.Format (quoteString)
+open Martian.ShellQuote (validUtf8)
+
+/-- JSON → MRO, (a): `convertToExp` hands the JSON text to the MRO parser; what
+`encoding/json` writes for a valid UTF-8 string – with HTML escaping
+(`json.Marshal`, also when it re-compacts a `RawMessage`) or without
+(`SetEscapeHTML(false)`) – is read back exactly by `unquoteBytes`.  For ALL
+valid UTF-8 strings. -/
+theorem string_leaf_json_to_mro (html : Bool) (s : Str) (h : validUtf8 s = true) :
+    unquoteBytes (jsonEncodeString html s) = some s :=
+  unquote_jsonEncode html s h
+
+/-- Any other writer: whatever produced the token, if it is valid UTF-8 and
+`encoding/json` decodes it to `s`, the MRO path reads the same `s` – every JSON
+escape form (`\/`, upper/lower-case hex, surrogate pairs for non-BMP runes as
+Python's `ensure_ascii` writes them); lone or mis-paired surrogate escapes are
+U+FFFD on both paths. -/
+theorem string_leaf_any_json_writer (body s : Str) (hv : validUtf8 body = true)
+    (h : jsonDecodeString (0x22 :: (body ++ [0x22])) = some s) :
+    unquoteBytes (0x22 :: (body ++ [0x22])) = some s :=
+  unquote_of_jsonDecode body s hv h
+
+/-- MRO → JSON, (b): `MarshalJSON`/`EncodeJSON` print every string and map key
+with `quoteString`; a JSON reader decodes that text to the string. -/
+theorem string_leaf_mro_to_json (s : Str) (h : validUtf8 s = true) :
+    jsonDecodeString (quoteString s) = some s :=
+  jsonDecode_quoteString s h
+
+/-- `quoteString` IS `encoding/json`'s string encoder without HTML escaping,
+byte for byte, for every byte string (invalid UTF-8 included: `\ufffd`). -/
+theorem quoteString_is_json_encoder (s : Str) : jsonEncodeString false s = quoteString s :=
+  jsonEncode_false_eq s
+
+/-- `encoding/json` reads its own output back. -/
+theorem json_encode_decode (html : Bool) (s : Str) (h : validUtf8 s = true) :
+    jsonDecodeString (jsonEncodeString html s) = some s :=
+  jsonDecode_jsonEncode html s h
+
+/-- (c): the string leaf of `source_roundtrip` / `encode_convert` at byte level.
+JSON text (either Go writer) → MRO lexer → `quoteString` (the formatter's and
+`MarshalJSON`'s printer) → MRO lexer again and → JSON decoder: every leg
+returns the same string, and the text reaches a fixed point (`quoteString s`)
+after one leg. -/
+theorem string_leaf_roundtrip (html : Bool) (s : Str) (h : validUtf8 s = true) :
+    ∃ s1, unquoteBytes (jsonEncodeString html s) = some s1
+      ∧ unquoteBytes (quoteString s1) = some s
+      ∧ jsonDecodeString (quoteString s1) = some s
+      ∧ quoteString s1 = jsonEncodeString false s :=
+  ⟨s, unquote_jsonEncode html s h, Martian.Format.unquote_quoteString s h,
+    jsonDecode_quoteString s h, (jsonEncode_false_eq s).symm⟩
+
+/-- Not preserved, stated: a string that is NOT valid UTF-8 does not survive –
+the writers replace each offending byte by U+FFFD (`"\xff"` ↦ `"\ufffd"`). -/
+theorem invalid_utf8_not_preserved :
+    unquoteBytes (jsonEncodeString true [0x61, 0xFF]) = some [0x61, 0xEF, 0xBF, 0xBD]
+    ∧ jsonDecodeString (quoteString [0xFF]) = some [0xEF, 0xBF, 0xBD] := by decide
+
+/-! non-vacuity / witnesses: `<é😀\u2028\x7f"` -/
+private def sample : Str :=
+  [0x3C, 0xC3, 0xA9, 0xF0, 0x9F, 0x98, 0x80, 0xE2, 0x80, 0xA8, 0x7F, 0x22]
+example : validUtf8 sample = true := by decide
+/-- HTML mode writes `\u003c`, U+2028 is always escaped, DEL and runes are literal -/
+example : jsonEncodeString true sample =
+    [0x22, 0x5C, 0x75, 0x30, 0x30, 0x33, 0x63, 0xC3, 0xA9, 0xF0, 0x9F, 0x98, 0x80,
+     0x5C, 0x75, 0x32, 0x30, 0x32, 0x38, 0x7F, 0x5C, 0x22, 0x22] := by decide
+/-- Python writes the non-BMP rune as a surrogate pair `\ud83d\ude00`, DEL as `\u007f` -/
+example : pyEncodeString [0xF0, 0x9F, 0x98, 0x80, 0x7F] =
+    [0x22, 0x5C, 0x75, 0x64, 0x38, 0x33, 0x64, 0x5C, 0x75, 0x64, 0x65, 0x30, 0x30,
+     0x5C, 0x75, 0x30, 0x30, 0x37, 0x66, 0x22] := by decide
+/-- … which both decoders read as the rune (hypothesis of `string_leaf_any_json_writer`) -/
+example : jsonDecodeString (pyEncodeString sample) = some sample
+    ∧ unquoteBytes (pyEncodeString sample) = some sample := by decide
+/-- upper-case hex surrogate pair, `\/`, and a lone surrogate (U+FFFD on both paths) -/
+example : jsonDecodeString [0x22, 0x5C, 0x75, 0x44, 0x38, 0x33, 0x44, 0x5C, 0x75, 0x44, 0x45, 0x30, 0x30, 0x5C, 0x2F, 0x22]
+      = some [0xF0, 0x9F, 0x98, 0x80, 0x2F]
+    ∧ unquoteBytes [0x22, 0x5C, 0x75, 0x44, 0x38, 0x33, 0x44, 0x5C, 0x75, 0x44, 0x45, 0x30, 0x30, 0x5C, 0x2F, 0x22]
+      = some [0xF0, 0x9F, 0x98, 0x80, 0x2F]
+    ∧ jsonDecodeString [0x22, 0x5C, 0x75, 0x64, 0x38, 0x30, 0x30, 0x41, 0x22] = some [0xEF, 0xBF, 0xBD, 0x41]
+    ∧ unquoteBytes [0x22, 0x5C, 0x75, 0x64, 0x38, 0x30, 0x30, 0x41, 0x22] = some [0xEF, 0xBF, 0xBD, 0x41] := by
+  decide
+/-- the agreement is one-directional: `\x41` and a raw control byte are MRO-only -/
+example : jsonDecodeString [0x22, 0x5C, 0x78, 0x34, 0x31, 0x22] = none
+    ∧ unquoteBytes [0x22, 0x5C, 0x78, 0x34, 0x31, 0x22] = some [0x41]
+    ∧ jsonDecodeString [0x22, 0x01, 0x22] = none := by decide
+
+end StringLeaf
 
 end Props.C16
